@@ -85,6 +85,20 @@ def anchor_coverage(lines, anchors):
 # ---------------------------------------------------------------------------
 
 
+def _plain(x, depth=0):
+    """what crosses the process boundary must be plain data: anything else (a proxy that was not pinned, an object of the
+    package under test) is replaced by its repr"""
+    if x is None or isinstance(x, (bool, int, float, str)):
+        return x if type(x) in (bool, int, float, str, type(None)) else (str(x) if isinstance(x, str) else int(x) if isinstance(x, int) and not isinstance(x, bool) else x)
+    if depth > 8:
+        return repr(x)[:200]
+    if type(x) in (list, tuple):
+        return [_plain(y, depth + 1) for y in x]
+    if type(x) is dict:
+        return {(k if isinstance(k, (str, int, float, bool, type(None))) else repr(k)): _plain(v, depth + 1) for k, v in x.items()}
+    return repr(x)[:200]
+
+
 class Collector:
     MAX_SAMPLES = 12
     MAX_CANDS = 400
@@ -99,6 +113,7 @@ class Collector:
         self.e3 = []
 
     def candidate(self, case):
+        case = _plain(case)
         k = json.dumps(case, sort_keys=True, default=str)
         if k in self.cand_keys:
             return
@@ -109,7 +124,7 @@ class Collector:
 
     def sample(self, obj):
         if len(self.samples) < self.MAX_SAMPLES:
-            self.samples.append(obj)
+            self.samples.append(_plain(obj))
 
     def count(self, name, n=1):
         self.counts[name] += n
